@@ -9,7 +9,7 @@ HERE = os.path.dirname(os.path.abspath(__file__))
 CLAIMS = {
     "C11": dict(
         technique="static analysis: abstract interpretation of pack()/unpack() into symbolic layout tables; table agreement + reference tables",
-        text="Decides for all field values and lengths (symbolic offsets): writer table = reader table for the 7 MS-GKDI codecs, writer tables = reference tables transcribed from MS-GKDI/NDR64, GetKey reply offsets, and that exactly the reply's own auth padding is cut. Does not decide: semantics of int.to_bytes/from_bytes and the utf-16 codec.",
+        text="Decides for all field values and lengths (symbolic offsets): writer table = reader table for the 7 MS-GKDI codecs, every raising path of a decoder is decided by a literal mismatch, an unknown code or a size test (never by a decoded field value pack() can emit), writer tables = reference tables transcribed from MS-GKDI/NDR64, GetKey reply offsets, and that exactly the reply's own auth padding is cut. Does not decide: semantics of int.to_bytes/from_bytes and the utf-16 codec.",
         note="Trusted base: Python int.to_bytes/from_bytes, slicing and bytes.join semantics; the reference tables in rules/c11.py transcribed by hand from MS-GKDI 2.2.1-2.2.4 and 3.1.4.1.",
         ref="DESIGN.md section 5 / C11",
     ),
@@ -39,7 +39,7 @@ CLAIMS = {
     ),
     "C16": dict(
         technique="static analysis: CFG path enumeration over truth values of atomic conditions (must-pass-through), symbolic window arguments, dominance of the security-context call",
-        text="Decides: every path of _process_response that returns a PDU on an authenticated call with a sealed request passes through unwrap and stores its result before parsing; unwrap gets exactly the raw wire windows and the negotiated sign_header; the provider verifies on every return path with header/trailer as sign_only|data_readonly; both trailers are PKT_PRIVACY and wrap encrypts; request() returns the post-unwrap PDU in both transports; no handler swallows failures. Does not decide: replay protection / cryptographic strength inside spnego.",
+        text="Decides: every path of _process_response that returns a PDU on an authenticated call with a sealed request passes through unwrap and stores its result before parsing; unwrap gets exactly the raw wire windows and the negotiated sign_header; the provider verifies on every return path with header/trailer as sign_only|data_readonly; both trailers are PKT_PRIVACY and wrap encrypts; request() returns the post-unwrap PDU in both transports; the buffer handed to _process_response is the received header bytes followed by the completely received body in both transports (what is verified is what arrived); no handler swallows failures. Does not decide: replay protection / cryptographic strength inside spnego.",
         note="Trusted: spnego unwrap_iov raises on a bad signature; Python slicing semantics.",
         ref="DESIGN.md section 5 / C16",
     ),
